@@ -78,6 +78,11 @@ def events():
         ("xta_from_file", {"kind": "xtafile", "buf": xta_ok}),
         ("xta_from_file_client_throw", {"kind": "xtafile_throwing", "buf": xta_ok.replace("901", "666", 1)}),
         ("queries_from_file", {"kind": "queryfile", "ctx": small, "text": "A[] i < 5\nE<> P.L1 /* c */\nsat: nosuch\nE<> i == 2\n"}),
+        # error-recovery shapes that could read the remembered transition source of an earlier call (same location names as the
+        # models above): a transition list that starts with a source-less edge, in both syntaxes
+        ("xta_sourceless_first_edge", {"kind": "xta", "buf": "process T1() { state T1_L0, T1_L2, A, B; init T1_L0; trans -> T1_L0 { }, -> B { }; }\nsystem T1;\n"}),
+        ("xta_old_sourceless_first_edge", {"kind": "xta", "newxta": False,
+                                           "buf": "process T1 { state T1_L0, T1_L2, A, B; init T1_L0; trans -> A { }; }\nsystem T1;\n"}),
         ("xta_unknown_source", {"kind": "xta", "buf": "process P() { state A, B; init A; trans A -> B { }, -> A { guard 1 ( ; }; }\nsystem P;\n"}),
     ]
     return ev
